@@ -187,11 +187,11 @@ def install_wrappers():
     _orig["contention"] = orig_contention = lockdir.LockDir._handle_lock_contention
     host_user = {}
 
-    def force_break(self, dead_holder_info):
+    def force_break(self, dead_holder_info, *args, **kwargs):
         sim = cur_sim()
         g = getattr(sim, "ghost", None)
         if g is None:
-            return orig_break(self, dead_holder_info)
+            return orig_break(self, dead_holder_info, *args, **kwargs)
         name = sim.current().name
         nonce = getattr(dead_holder_info, "nonce", None)
         g.breaking[name] = nonce
@@ -212,19 +212,19 @@ def install_wrappers():
             if other != name and getattr(ld, "nonce", None) == nonce and not sim.actors[other].dead:
                 sim.probe("broke_live_holder")
         try:
-            return orig_break(self, dead_holder_info)
+            return orig_break(self, dead_holder_info, *args, **kwargs)
         finally:
             g.breaking.pop(name, None)
 
-    def handle(self, other_holder):
+    def handle(self, other_holder, *args, **kwargs):
         sim = cur_sim()
         g = getattr(sim, "ghost", None)
         if g is None:
-            return orig_contention(self, other_holder)
+            return orig_contention(self, other_holder, *args, **kwargs)
         name = sim.current().name
         g.in_steal[name] = True
         try:
-            return orig_contention(self, other_holder)
+            return orig_contention(self, other_holder, *args, **kwargs)
         finally:
             g.in_steal.pop(name, None)
 
